@@ -32,7 +32,12 @@ impl Ident {
 	}
 
 	pub(crate) fn deserialize(read: &mut impl io::Read) -> FResult<Self> {
-		Ok(Self(Cow::Owned(String::deserialize(read)?)))
+		let s = String::deserialize(read)?;
+		if s.is_empty() {
+			// the parser never produces an empty identifier
+			return Err(crate::error::FendError::DeserializationError);
+		}
+		Ok(Self(Cow::Owned(s)))
 	}
 }
 
